@@ -54,6 +54,8 @@ class Hooks:
 
     def opaque_call(self, eng, st, fn, args, kwargs):
         """default: an unknown callable returns an arbitrary value or raises an arbitrary exception; recorded in the trace"""
+        if fn.name.startswith("Unmodelled."):
+            raise Unsupported(f"use of a field that the contract's symbolic object does not model ({fn.name})")
         st.emit("call", name=fn.name, args=tuple(args), kwargs=dict(kwargs))
         s2 = st.fork()
         exc = eng.new_symexc(s2, fn.name.replace(".", "_"))
